@@ -269,3 +269,103 @@ def linear_replay(profile, path: list, terminal: Optional[str] = None):
         for m in profile.monitors:
             viols.extend(m.terminal(w, terminal))
     return viols
+
+
+# ---------------------------------------------------------------------------
+# parallel search: shared visited set + work queue in a manager process
+
+class Shared:
+    """Lives in a multiprocessing manager process."""
+
+    def __init__(self, n_profiles, max_states, max_seconds, max_violations):
+        self.visited = [set() for _ in range(n_profiles)]
+        self.todo = []                  # LIFO of (idx, path, key, ev)
+        self.active = 0
+        self.max_states = max_states
+        self.max_seconds = max_seconds
+        self.max_violations = max_violations
+        self.t0 = H._ORIG_TIME()
+        self.capped = [''] * n_profiles
+        self.nviol = [0] * n_profiles
+        self.failed = ''
+
+    def visit(self, idx, key):
+        if self.capped[idx] or self.nviol[idx] >= self.max_violations:
+            return False
+        v = self.visited[idx]
+        if key in v:
+            return False
+        v.add(key)
+        if len(v) >= self.max_states:
+            self.capped[idx] = f'max_states={self.max_states}'
+        elif H._ORIG_TIME() - self.t0 > self.max_seconds:
+            self.capped[idx] = f'max_seconds={self.max_seconds}'
+        return True
+
+    def violation(self, idx):
+        self.nviol[idx] += 1
+
+    def push(self, items):
+        self.todo.extend(items)
+
+    def pop(self):
+        """-> item | 'wait' | 'done' ; a popped item makes the caller
+        active until it calls finish()."""
+        if self.failed:
+            return 'done'
+        while self.todo:
+            it = self.todo.pop()
+            idx = it[0]
+            if self.capped[idx] or self.nviol[idx] >= self.max_violations:
+                continue
+            self.active += 1
+            return it
+        return 'done' if self.active == 0 else 'wait'
+
+    def finish(self):
+        self.active -= 1
+
+    def fail(self, msg):
+        self.failed = msg
+
+    def summary(self):
+        return ([len(v) for v in self.visited], list(self.capped),
+                self.failed)
+
+
+class SharedExplorer(Explorer):
+    """Explorer whose visited set and caps live in a Shared object."""
+
+    def __init__(self, profile, idx, shared):
+        super().__init__(profile)
+        self.idx = idx
+        self.shared = shared
+
+    def _visit(self, key, depth):
+        new = self.shared.visit(self.idx, key)
+        if new:
+            self.st.states += 1
+            self.st.max_depth = max(self.st.max_depth, depth)
+        return new
+
+    def _report(self, v, path, w, terminal=None):
+        super()._report(v, path, w, terminal)
+        self.shared.violation(self.idx)
+
+    def work(self, item) -> None:
+        idx, path, key, ev = item
+        todo: List[Tuple[list, str, tuple]] = []
+        if key is None:
+            w, viols = self._boot()
+            key = self._key(w)
+            self._visit(key, 0)
+            if viols:
+                for v in viols:
+                    self._report(v, [('boot',)], w)
+                return
+            self._expand(w, [], key, todo)
+        else:
+            w = self._replay(path, key)
+            self._expand(w, path, key, todo, only=ev)
+        if todo:
+            self.shared.push([(idx, p, k, e) for p, k, e in todo])
